@@ -31,25 +31,29 @@ def lenTypeOf (cfg : Nat) : Nat := if cfg = 7 then 8 else 4
 /-- documented size = alignment of an aligned float vector: vec1 4, vec2 8, vec3/vec4 16 -/
 def alignedFloatVec (L : Nat) : Nat := if L = 1 then 4 else if L = 2 then 8 else 16
 
+/-- an aligned vector of `L` components occupies `L` rounded up to a power of two elements (vec3 is padded to vec4): float 4/8/16/16 bytes,
+    double 8/16/32/32, and likewise for the integer types -/
+def alignedSlots (L : Nat) : Nat := if L = 1 then 1 else if L = 2 then 2 else 4
+
 def Row.ok (x : Row) : Bool :=
   x.vptr == 0 && x.cvptr == 0 && x.lenType == lenTypeOf x.cfg &&
   match x.kind with
   | 0 =>  -- vector
     x.len == x.c && x.offs == (List.range x.c).map (· * x.tsize) &&
     (if x.aligned then
-        x.sizeof ≥ x.c * x.tsize && x.alignof ≥ x.talign && x.sizeof % x.alignof == 0 &&
+        x.sizeof == alignedSlots x.c * x.tsize && x.alignof ≥ x.talign && x.sizeof % x.alignof == 0 &&
         (!(x.isFloat && x.tsize == 4) || (x.sizeof == alignedFloatVec x.c && x.alignof == alignedFloatVec x.c))
      else x.sizeof == x.c * x.tsize && x.alignof == x.talign)
   | 1 =>  -- matrix: c columns of r rows, column-major
     x.len == x.c &&
     (if x.aligned then
         x.offs == (List.range x.c).flatMap (fun c => (List.range x.r).map fun r => c * x.aux + r * x.tsize) &&
-        x.sizeof == x.c * x.aux && x.aux ≥ x.r * x.tsize &&
+        x.sizeof == x.c * x.aux && x.aux == alignedSlots x.r * x.tsize &&
         (!(x.isFloat && x.tsize == 4) || x.aux == alignedFloatVec x.r)
      else
         x.offs == (List.range (x.c * x.r)).map (· * x.tsize) && x.sizeof == x.c * x.r * x.tsize && x.alignof == x.talign)
   | _ =>  -- quaternion: offsets listed for x, y, z, w
-    x.len == 4 && x.sizeof ≥ 4 * x.tsize && (x.aligned || x.sizeof == 4 * x.tsize) &&
+    x.len == 4 && x.sizeof == 4 * x.tsize &&
     (if x.aux == 1 then x.offs == [x.tsize, 2 * x.tsize, 3 * x.tsize, 0]
      else x.offs == [0, x.tsize, 2 * x.tsize, 3 * x.tsize])
 
